@@ -70,6 +70,13 @@ mod proofs {
         assert!(r == want, "names_will_be_identical_after_mangling differs from the decoration table");
         kani::cover!(r && cn != mn, "a decorated name recognised");
     }
+    /// C12: the link-name decision never panics (slice indices, subtraction) whatever the two names and the ABI are
+    #[kani::proof] #[kani::unwind(10)]
+    fn link_name_decision_never_panics() {
+        let (cb, cn) = sym_bytes::<3>(); let (mb, mn) = sym_bytes::<7>();
+        let r = utils::names_will_be_identical_after_mangling(s(&cb, cn), s(&mb, mn), any_abi());
+        kani::cover!(r, "identical"); kani::cover!(!r && mn == cn + 1, "prefix only, not identical");
+    }
     #[kani::proof] #[kani::unwind(10)]
     fn function_binding_reaches_its_symbol() {
         let (cb, cn) = sym_bytes::<3>(); let (mb, mn) = sym_bytes::<5>(); let (nb, nn) = sym_bytes::<3>(); let (lb, ln) = sym_bytes::<3>();
